@@ -8,7 +8,7 @@ from rules.psc import sym, strip
 META = {
     'title': 'Tokenisation and literals are faithful to the text',
     'explanation': 'Clauses read off the MIR of the lexer by constant propagation with the first two input characters held constant (a finite decision table: which token, how many characters consumed) and off the scan predicates as truth tables, plus structural rules on the string decoder: two-character operators give their own token and consume exactly two characters, no other second character changes or joins a one-character token, the keyword table is the documented one and is applied to the whole identifier slice, identifier/number/string/comment scan predicates, the skipped set is exactly Pattern_White_Space, token text is sliced only at offsets produced by bump(), the escape flag of the string scanner has parity (4-cell truth table of one loop iteration), the decoder is a single left-to-right pass over the same escape set with the documented values, and the end-of-input sentinel is not a token the lexer can produce.'
-                   ' R08.9 the token stream ends only where the text ends (an unterminated literal is not the end of the program).',
+                   ' R08.9 the token stream ends only where the text ends (an unterminated literal is not the end of the program). R08.10 the program ends only where the tokens end (parse answers Ok only at the end-of-input token).',
     'not_decided': ['token-stream equality for all inputs as an input-output relation', "Unicode classification (char::is_alphabetic) is std's"],
 }
 
@@ -174,6 +174,51 @@ def check_stream_end(ctx, rep, rule, lf):
                ('a text that starts with %r always yields a token first' % c) if not bad else
                'on the text %r (and %d more) next() answers None, which the parser takes for the end of the program: the unfinished token and everything after it '
                'are dropped without an error' % (bad[0], len(bad) - 1), 'src/lexer.rs')
+
+
+def check_program_end(ctx, rep, rule):
+    """every successful return of the top-level parse has, as its LAST test of the current token, found it equal to the
+    end-of-input token (helpers that are new are spliced in, so a shared statement loop is seen where it is used)"""
+    from rules import trm
+    from rules.shared import deref, truth
+    F = ctx.facts()
+    fn = F.fn('parser::parse')
+    eof = trm.sentinel_token(F)
+    fields = [f['name'] for f in F.adt('parser::Parser')['variants'][0]['fields']]
+    idx = fields.index('current_token') if 'current_token' in fields else None
+    if idx is None:
+        cand = [i for i, f in enumerate(F.adt('parser::Parser')['variants'][0]['fields']) if f['ty'].startswith('lexer::Token<')]
+        if len(cand) != 1:
+            raise CheckerError('%s: anchor not found: the field of Parser that holds the current token' % rule)
+        idx = cand[0]
+    suffix = '.f%d' % idx
+
+    def is_cur(v):
+        return isinstance(v, tuple) and len(v) == 2 and v[0] in ('mem', 'ref') and isinstance(v[1], str) and v[1].endswith(suffix)
+    n = 0
+    for p in AbsInt(F, fn, max_paths=20000).run():
+        r = simp(p.env.get('_0'))
+        if p.exit != 'return' or not (r and r[0] == 'agg' and r[2] == 'Ok'):
+            continue
+        n += 1
+        last = None
+        for c in p.constraints:
+            if c[0][0] == 'switch' and c[0][1][0] == 'call' and (c[0][1][1].endswith('::ne') or c[0][1][1].endswith('::eq')):
+                args = [deref(p.env, a) for a in c[0][1][2]]
+                if len(args) == 2 and any(is_cur(a) for a in args):
+                    other = [a for a in args if not is_cur(a)]
+                    is_ne = c[0][1][1].endswith('::ne')
+                    t = truth(c)
+                    equal = (t and not is_ne) or ((not t) and is_ne)
+                    last = (other[0] if other else None, equal)
+            elif c[0][0] == 'variant' and c[0][2] == tables.TOKEN and len(c[0]) > 3 and is_cur(c[0][3]) if len(c[0]) > 3 else False:
+                last = (('enum', tables.TOKEN, c[1]), True)
+        ok = last is not None and last[1] and last[0] == ('enum', tables.TOKEN, eof)
+        rep.ob(ok, rule, fn.path, 'Ok return #%d' % n, 'the last test of the current token before the successful return found %s (%s)' % (
+            'Token::' + eof if ok else 'something else', 'no test' if last is None else '%s %s' % ('==' if last[1] else '!=', show(last[0]) if last[0] else '?')), fn.loc())
+    rep.count('parse_ok_paths', n)
+    if n == 0:
+        raise CheckerError('%s: no successful return path of parser::parse was found' % rule)
 
 
 def run(ctx, rep):
@@ -376,6 +421,8 @@ def run(ctx, rep):
     # ---- R08.9 the stream ends only where the text ends ------------------------------------------
     rep.rule('R08.9', 'the token stream ends only at the end of the text: next() answers None only when everything it consumed was whitespace or a comment')
     check_stream_end(ctx, rep, 'R08.9', lf)
+    rep.rule('R08.10', 'the program ends only where the tokens end: parse() answers Ok only after it found the end-of-input token (a stray `}` or any other token is not the end of the program)')
+    check_program_end(ctx, rep, 'R08.10')
 
     # ---- R08.7 skipping ------------------------------------------------------------------------
     rep.ob(set(PATTERN_WHITE_SPACE) <= set(lf['skipped']), 'R08.7', fnp, 'whitespace arm', 'whitespace restarts the scan without a token', loc)
